@@ -12,7 +12,8 @@ V=/verif
 "$V/check" build >/dev/null || exit 2
 T=$(mktemp -d /tmp/verif-det.XXXXXX); trap 'rm -rf "$T"' EXIT
 # stage A binary for C18
-S="$T/yield"; "$V/bin/instrument" /repo "$S" >/dev/null || exit 2
+(cd "$V/sim" && go build -o "$T/instrument" ./instrument) || exit 2
+S="$T/yield"; "$T/instrument" /repo "$S" >/dev/null || exit 2
 sed "s#=> /repo#=> $S#" "$V/sim/go.mod" > "$T/y.mod"; cp "$V/sim/go.sum" "$T/y.sum"
 (cd "$V/sim" && go build -modfile="$T/y.mod" -tags "verif verifyield" -o "$T/sim-yield" .) || exit 2
 rc=0
